@@ -72,7 +72,7 @@ def intsStr (l : List Int) : String := if l.isEmpty then "." else ",".intercalat
 def reqStr : Req → String
   | .saveFrontier s => s!"save {snapStr s}"
   | .delRec k => s!"del {k}"
-  | .zrem ks => s!"zrem {intsStr ks}"
+  | .zrem ks => s!"zrem {intsStr ((idxSort (ks.map (fun k => (k, (0 : Int))))).map (·.1))}"
   | .delFrontier => "delfr"
   | .commit r => s!"commit {r.seq}"
   | .commitLatest r => s!"latest {r.seq}"
